@@ -53,6 +53,7 @@ def conservation(ev):
     orphan = ~np.isin(tags, np.arange(nseg, dtype=float))
     if orphan.any():
         vio.append(V('orphan-piece', f'{int(orphan.sum())} pieces carry a segment number outside 0..{nseg - 1}: {tags.tolist()}'))
+        return vio  # pieces cannot be grouped by segment: nothing below would be meaningful
     for j, arr in enumerate(tab['iv']):
         vals = R.VALS[p['vals']][j]
         lo_t = hi_t = 0.0
@@ -85,7 +86,7 @@ def conservation(ev):
                 vio.append(V('negative-piece', f'{where}: pieces {pcs.tolist()}'))
             if not (lo - tol <= ssum <= hi + tol):
                 f = None
-                if ex['zero'] and v != 0 and ssum == 0.0 and len(pcs):
+                if ex['zero'] and v != 0 and len(pcs) and np.all(pcs == 0.0):
                     f = 'C04-repeated-point-drops-value'
                 vio.append(V('segment-sum', f'{where}: pieces {pcs.tolist()} sum to {ssum!r}; {what}', finding=f))
                 seg_bad = True
